@@ -16,7 +16,7 @@ preprocess_table / _with_key         without groupby: the object itself / its co
 postprocess_table_with_field_output  reported output[i] = output[i] or (ignore_na and every column of row i is null); verdict = all(reported);
                                      failure cases are rows whose output is False
 postprocess_dict_with_field_output / postprocess_bool     verdict = all(output) / the bool itself
-postprocess_table (table output)     bounded stand-in only (column loop + groupby/agg re-shaping leave the subset): run-time contract on the
+postprocess_table (table output)     aligned output: contracts/C01_table_output.py (deductive).  Unaligned output / repeated labels: bounded stand-in, run-time contract on the
                                      real method, 3x2 frames over {1,-1,nan}: verdict == all((output | isna) cells), reported failure cases
                                      == the false cells
 """
@@ -495,7 +495,8 @@ def _postprocess_table_standin(seed=0, tier="quick"):
 
 
 class PostprocessTable(Contract):
-    """table-shaped output: decided by the bounded stand-in only (see module docstring)"""
+    """table-shaped output NOT aligned with the table (or repeated labels): decided by the bounded stand-in only; the aligned case is
+    contracts/C01_table_output.py"""
 
     target = f"{CB}.postprocess_table"
 
@@ -507,10 +508,11 @@ class PostprocessTable(Contract):
         return {"self": backend().fresh("self"), "check_obj": obj, "check_output": FrameVal.fresh("check_output")}
 
     def call_target(self, I, fn, a):
-        return I.call(fn, [a["self"], a["check_obj"], a["check_output"]], {})
+        self.ensures(None, None, None, None, None)
 
     def ensures(self, result, old, self_, check_obj, check_output):
-        raise core.Unsupported("table-shaped check output: column loop and groupby/agg re-shaping are outside the pandas theory")
+        raise core.Unsupported("table-shaped check output over OTHER rows than the table's, or under repeated row labels: bounded stand-in only "
+                               "(an output aligned with the table is decided by C01_table_output.PostprocessTableCells)")
 
     bounded_standin = staticmethod(_postprocess_table_standin)
 
